@@ -29,7 +29,9 @@ def _setup_repo_path():
 
 _setup_repo_path()
 
-from .core import FORMAT, execute  # noqa: E402
+from .core import FORMAT, ChildDied, run_isolated  # noqa: E402
+from .core import execute as execute_inprocess  # noqa: E402
+from .core import execute_isolated as execute  # noqa: E402
 from .minimise import minimise  # noqa: E402
 
 WORLDS = {
@@ -38,7 +40,21 @@ WORLDS = {
 }
 
 
+WARM_MODULES = [
+    "numpy", "sympy", "scipy.sparse", "rapidjson",
+    "orquestra.quantum.circuits", "orquestra.quantum.circuits._serde", "orquestra.quantum.circuits.layouts",
+    "orquestra.quantum.operators", "orquestra.quantum.measurements", "orquestra.quantum.distributions",
+    "orquestra.quantum.wavefunction", "orquestra.quantum.utils", "orquestra.quantum.estimation",
+    "orquestra.quantum.api.estimation", "orquestra.quantum.runners.symbolic_simulator", "orquestra.quantum.runners.trackers",
+    "dst.simkit.backends", "dst.simkit.refmodel", "dst.simkit.store", "dst.simkit.simrng",
+]
+
+
 def load_world(pid):
+    """Import the world and (imports only - no library code is run) everything a run needs, so that the
+    forked child of each run starts from a complete process image."""
+    for m in WARM_MODULES:
+        importlib.import_module(m)
     mod = importlib.import_module(f"dst.worlds.{WORLDS[pid]}")
     return mod.WORLD
 
@@ -87,33 +103,36 @@ def _run_chunk(pid, tier, base_seed, indices, known_keys, want_digests):
         "sigs": set(), "violations": [], "harness_errors": [], "digests": {}, "real_calls": Counter(),
         "samples": [], "pid": os.getpid(),
     }
+    def one(seed):
+        plan = world.gen_plan(seed, tier)
+        r = execute_inprocess(world, plan, known_keys)
+        d = r.to_dict()
+        d["sample"] = world.sample(plan) if r.nontrivial else None
+        return d
+
     for i in indices:
         seed = base_seed * SEED_MUL + i
-        faulthandler.dump_traceback_later(RUN_WALL_CAP, exit=True)
         try:
-            plan = world.gen_plan(seed, tier)
-            r = execute(world, plan, known_keys)
-        except Exception:
-            agg["harness_errors"].append({"seed": seed, "error": traceback.format_exc()})
+            d = run_isolated(lambda: one(seed), RUN_WALL_CAP)
+        except ChildDied as e:
+            agg["harness_errors"].append({"seed": seed, "error": str(e)})
             continue
-        finally:
-            faulthandler.cancel_dump_traceback_later()
         agg["runs"] += 1
-        agg["steps"] += r.n_steps
-        agg["probes"].update(r.probes)
-        agg["faults"].update(r.faults)
-        agg["known_hits"].update(r.known_hits)
-        agg["real_calls"].update(r.real_calls)
-        if r.nontrivial:
-            agg["sigs"].add(r.signature)
-        if r.harness_error:
-            agg["harness_errors"].append({"seed": seed, "error": r.harness_error})
-        if r.violation:
-            agg["violations"].append({"seed": seed, "index": i, "violation": r.violation})
+        agg["steps"] += d["n_steps"]
+        agg["probes"].update(d["probes"])
+        agg["faults"].update(d["faults"])
+        agg["known_hits"].update(d["known_hits"])
+        agg["real_calls"].update(d["real_calls"])
+        if d["nontrivial"]:
+            agg["sigs"].add(d["signature"])
+        if d["harness_error"]:
+            agg["harness_errors"].append({"seed": seed, "error": d["harness_error"]})
+        if d["violation"]:
+            agg["violations"].append({"seed": seed, "index": i, "violation": d["violation"]})
         if i in want_digests:
-            agg["digests"][i] = r.digest
-        if len(agg["samples"]) < 1 and r.nontrivial:
-            agg["samples"].append(world.sample(plan))
+            agg["digests"][i] = d["digest"]
+        if len(agg["samples"]) < 1 and d["sample"] is not None:
+            agg["samples"].append(d["sample"])
     agg["probes"] = dict(agg["probes"])
     agg["faults"] = dict(agg["faults"])
     agg["known_hits"] = dict(agg["known_hits"])
